@@ -10,16 +10,18 @@ OUT=/verif/seeded/$ID; mkdir -p $OUT
 export CARGO_NET_OFFLINE=true
 cd $WT || exit 2
 git checkout -q -- . 2>/dev/null
+git clean -fdq -e "*.diff" -e NOTES.md -e target -e OUT
+DEMOARGS=${DEMOARGS:---workspace --no-fail-fast}
 git apply ${PX}MUTATION.diff || { echo "mutation does not apply"; exit 2; }
 SUITE=$(cargo test --workspace --no-fail-fast --offline 2>&1 | grep -E "^test result" | tr '\n' ' ')
 echo "suite with mutation: $SUITE"
 git apply ${PX}DEMO.diff || { echo "demo does not apply"; exit 2; }
-DM=$(cargo test --workspace --no-fail-fast --offline "$FILT" 2>&1 | grep -E "^test result: (FAILED|ok). [1-9]|^test result: FAILED" | tr '\n' ' ')
+DM=$(cargo test $DEMOARGS --offline "$FILT" 2>&1 | grep -E "^test result: (FAILED|ok). [1-9]|^test result: FAILED" | tr '\n' ' ')
 echo "demo with mutation: $DM"
 git checkout -q -- . ; git apply ${PX}DEMO.diff
-DO=$(cargo test --workspace --no-fail-fast --offline "$FILT" 2>&1 | grep -E "^test result: (FAILED|ok). [1-9]|^test result: FAILED" | tr '\n' ' ')
+DO=$(cargo test $DEMOARGS --offline "$FILT" 2>&1 | grep -E "^test result: (FAILED|ok). [1-9]|^test result: FAILED" | tr '\n' ' ')
 echo "demo without mutation: $DO"
-git checkout -q -- . ; git clean -fdq -e "*.diff" -e NOTES.md -e target
+git checkout -q -- . ; git clean -fdq -e "*.diff" -e NOTES.md -e target -e OUT
 cp ${PX}MUTATION.diff $OUT/patch.diff; cp ${PX}DEMO.diff $OUT/demo.diff; cp NOTES.md $OUT/NOTES.md
 cd /verif
 RES=""
